@@ -13,6 +13,7 @@ import z3
 
 from .interp import ClassVal, Interp
 from .values import (
+    INF,
     NAN,
     TAG_PYINT,
     IdStr,
@@ -816,7 +817,7 @@ class ExprHeap:
         for k in sorted(kinds):
             if k == "ConstantExpression":
                 v = x.cur["value"] if "value" in x.cur else self.read_init_nofork(I, x, "value")
-                if v is NAN:
+                if v is NAN or v is INF:
                     cases.append((k, (z3.RealVal(0), z3.BoolVal(False))))
                 elif v is None:
                     raise StructureError(f"constant {x} without a value")
